@@ -165,6 +165,11 @@ def _gen_case(rng, tier):
         fields = gm.gen_fields(rng, max_fields=5, max_file=200)
         texts = [f['value'].encode('utf8') for f in fields if 'value' in f]
         boundary = gm.choose_boundary(rng, texts, token_only=True)
+        if rng.random() < 0.06:
+            # longer than the 70 characters RFC 2046 allows: hostile or sloppy clients send such boundaries
+            boundary = (boundary + 'Long' * 40)[:rng.choice([71, 80, 100, 150])]
+            if any(boundary.encode() in t for t in texts):
+                boundary = 'x' + boundary[1:]
         for f in fields:
             if 'filename' in f:
                 f.pop('_max', None)
@@ -247,6 +252,9 @@ def _gen_case(rng, tier):
         if rng.random() < 0.6:
             case['M'] = rng.choice([0, 1, max(1, len(body) // 2), max(1, len(body) - 1), len(body) // 2 + 1])
             case['retry'] = rng.choice([1, 2, 3])
+    if rng.random() < 0.08:
+        case['errors_map'] = 'base_only'
+        case['retry'] = max(case.get('retry', 0), 2)
     r = rng.random()
     if r < 0.08:
         case['stages'] = {'after': [rng.choice(['forms_quiet', 'json', 'body'])]}      # e.g. an audit hook reading the body
@@ -349,7 +357,8 @@ def _run_case(case):
         cl = len(body) + fr['extra']
     o = body_request(wire, case['sched'], B=case['B'], cl=cl, chunked=chunked, ctype=case['ctype'],
                      tempmode='mem', touch=tuple(case['touch']), stages=case.get('stages'),
-                     M=case.get('M'), retry=case.get('retry', 0), keep_alive=bool(case.get('keep_alive')))
+                     M=case.get('M'), retry=case.get('retry', 0), keep_alive=bool(case.get('keep_alive')),
+                     errors_map=case.get('errors_map'))
     code = o.resp.code
     log('status', o.resp.status, 'calls', o.stream.n_calls, 'seen', digest(o.seen))
     exc = o.handler_exc
